@@ -176,8 +176,13 @@ class TensorKit(MonoidalKit):
     def rand_cod(self, rng, dom):
         return self.rand_ty(rng, rng.choice([0, 1, 1, 2]))
 
+    def dim(self, ty):
+        """ tensor.Diagram types degrade to rigid.Ty: rebuild the Dim. """
+        return self.Ty(*[ob.name for ob in ty.objects])
+
     def box_with_dom(self, rng, dom, cod=None):
         cod = self.rand_cod(rng, dom) if cod is None else cod
+        dom, cod = self.dim(dom), self.dim(cod)
         size = 1
         for ob in dom.objects + cod.objects:
             size *= ob.name
